@@ -783,6 +783,7 @@ func evaluateFamilies(run *core.Run, results []stepResult) map[string]bool {
 func logf(x float64) float64 { return math.Log(x) }
 
 func runC08(run *core.Run) {
+	core.NoJobWatch = true // the jobs of this check run child processes under their own step budgets and CPU-time limits
 	run.Rule = "(1) totality: child processes run every entry point on G4 mutants as DSL / module file sets / fga.mod YAML, G3 cooperating module file sets with injected conflicts under hostile layouts, token-level mutants of model JSON, G1d degenerate protobuf models (30 kinds of missing optional parts, 1-4 per model) and hostile strings; the input index is logged before each call so that a fatal error is attributed; (2) work bound: logical steps = sum of Go coverage counters (repo packages + ANTLR / yaml.v3 / protojson) of single calls on scaled families (every unit of the lexer vocabulary x 6 contexts, nesting, chains, line runs, model-level chains/rings/meshes, YAML and JSON shapes) at 3-4 doubling sizes and on random mutants: quadratic budget and growth exponent <= 2.6; a call exceeding 50x its budget is a hang; (3) errors are reported: ParseDSL collected errors <=> TransformDSLToProto returns an error and no model on every DSL input; one character that starts no token injected anywhere outside comments and CEL strings of a valid text must yield an error; non-trivial = input that reached an entry point / family measured; distinct by stream and index"
 	sizes := map[string]int{"dsl": run.N(40000, 1500000), "modfiles": run.N(8000, 200000), "yaml": run.N(15000, 400000), "json": run.N(12000, 300000), "models": run.N(40000, 1200000), "strings": run.N(1500, 20000), "mergesets": run.N(6000, 150000)}
 	// committed crashers first
